@@ -681,6 +681,10 @@ impl FinishedSession {
     pub fn commit<T: HashAlgorithm>(self, nomt: &Nomt<T>) -> Result<(), anyhow::Error> {
         let _write_guard = self.take_global_guard.then(|| nomt.access_lock.write());
 
+        if nomt.store.is_poisoned() {
+            anyhow::bail!("Store is poisoned due to prior error");
+        }
+
         {
             let mut shared = nomt.shared.lock();
             if shared.root != self.prev_root {
@@ -697,7 +701,11 @@ impl FinishedSession {
         if let Some(rollback_delta) = self.rollback_delta {
             // UNWRAP: if rollback_delta is `Some`, then rollback must be also `Some`.
             let rollback = nomt.store.rollback().unwrap();
-            rollback.commit(rollback_delta)?;
+            if let Err(e) = rollback.commit(rollback_delta) {
+                // the in-memory root has already moved on and the log may hold a partial record.
+                nomt.store.poison();
+                return Err(e);
+            }
         }
 
         nomt.store.commit(
@@ -728,12 +736,24 @@ impl FinishedSession {
             return Ok(Some(self));
         }
 
+        if nomt.store.is_poisoned() {
+            anyhow::bail!("Store is poisoned due to prior error");
+        }
+
         if let Some(rollback_delta) = self.rollback_delta {
             // UNWRAP: if rollback_delta is `Some`, then rollback must be also `Some`.
             let rollback = nomt.store.rollback().unwrap();
-            if let Some(delta) = rollback.commit_nonblocking(rollback_delta)? {
-                self.rollback_delta = Some(delta);
-                return Ok(Some(self));
+            match rollback.commit_nonblocking(rollback_delta) {
+                Ok(Some(delta)) => {
+                    self.rollback_delta = Some(delta);
+                    return Ok(Some(self));
+                }
+                Ok(None) => {}
+                Err(e) => {
+                    // the log may hold a partial record.
+                    nomt.store.poison();
+                    return Err(e);
+                }
             }
         }
 
@@ -790,6 +810,10 @@ impl Overlay {
 
         let _write_guard = nomt.access_lock.write();
 
+        if nomt.store.is_poisoned() {
+            anyhow::bail!("Store is poisoned due to prior error");
+        }
+
         let marker = self.mark_committed();
 
         {
@@ -808,7 +832,11 @@ impl Overlay {
         if let Some(rollback_delta) = rollback_delta {
             // UNWRAP: if rollback_delta is `Some`, then rollback must be also `Some`.
             let rollback = nomt.store.rollback().unwrap();
-            rollback.commit(rollback_delta)?;
+            if let Err(e) = rollback.commit(rollback_delta) {
+                // the in-memory root has already moved on and the log may hold a partial record.
+                nomt.store.poison();
+                return Err(e);
+            }
         }
 
         nomt.store
@@ -848,6 +876,10 @@ impl Overlay {
             return Ok(Some(self));
         }
 
+        if nomt.store.is_poisoned() {
+            anyhow::bail!("Store is poisoned due to prior error");
+        }
+
         let marker = self.mark_committed();
 
         {
@@ -866,7 +898,11 @@ impl Overlay {
         if let Some(rollback_delta) = rollback_delta {
             // UNWRAP: if rollback_delta is `Some`, then rollback must be also `Some`.
             let rollback = nomt.store.rollback().unwrap();
-            rollback.commit(rollback_delta)?;
+            if let Err(e) = rollback.commit(rollback_delta) {
+                // the in-memory root has already moved on and the log may hold a partial record.
+                nomt.store.poison();
+                return Err(e);
+            }
         }
 
         nomt.store
